@@ -1,3 +1,3 @@
 From Coq Require Import Extraction ExtrOcamlBasic.
 From Glb Require Import Check.C18.
-Extraction "model.ml" check_case verdict_ok verdict_ok_for matches model_fields model_fields_for spec_special.
+Extraction "model.ml" check_case verdict_ok verdict_ok_for matches model_fields model_fields_for spec_special spec_dirlike dirlike_matches dirlike_ok_for.
